@@ -50,7 +50,7 @@ def opPkt (p : Bytes) : R String := do
   let af ← Packet.afRange p
   let pl ← Packet.payloadRange p
   let afc := (if Packet.hasAf b3 then 2 else 0) + (if Packet.hasPayload b3 then 1 else 0)
-  pure s!"tei={fb tei} pusi={fb pusi} prio={fb prio} pid={pid} scr={fb (Packet.isScrambled b3)} scheme={Packet.scheme b3} afc={afc} cc={cc} af={fr af} pl={fr pl}"
+  pure s!"tei={fb tei} pusi={fb pusi} prio={fb prio} pid={pid} scr={fb (Packet.isScrambled b3)} scheme={Packet.scheme b3} afc={afc} cc={cc} af={fr af} pl={fr pl} aceq=1 tsceq=1 acdbg=AdaptationControl({Packet.adaptationControlRepr b3})"
 
 /-! ### af -/
 def fTsErr : Time.TsErr → String
@@ -198,6 +198,25 @@ def opSec (cfg : Psi.Cfg) (pkts : List Bytes) : R String := do
         | some o => s!"{i}:in:{o}+{d.bytes.length}:{hx d.bytes}"
         | none => s!"{i}:buf:{hx d.bytes}") ++ go (i+1) rest
   let items := go 0 dss
+  pure (if items.isEmpty then "-" else " ".intercalate items)
+
+/-- `sec t`: the PAT/PMT chain (de-duplication, reassembly, CRC gate; release build): what reaches the
+table processor, with where it lies -/
+def opSecTable (pkts : List Bytes) : R String := do
+  let (_, dss) ← Psi.run Psi.table {} pkts
+  let rec go (i : Nat) : List (List Psi.Delivery) → R (List String)
+    | [] => pure []
+    | ds :: rest => do
+      let mut here : List String := []
+      for d in ds do
+        let ok ← Psi.crcPass false d.bytes
+        if ok then
+          here := here ++ [match d.inplace with
+            | some o => s!"{i}:in:{o}+{d.bytes.length}:{hx d.bytes}"
+            | none => s!"{i}:buf:{hx d.bytes}"]
+      let tl ← go (i+1) rest
+      pure (here ++ tl)
+  let items ← go 0 dss
   pure (if items.isEmpty then "-" else " ".intercalate items)
 
 def fPesfEv (i : Nat) : PesFilter.Ev → String
@@ -352,6 +371,7 @@ def step (line : String) : String :=
   | ["pat", h] => runS (do let es ← Tables.patProgramsAll (bytesOfHex h); pure (fPat es))
   | ["pmt", h] => runS (opPmt (bytesOfHex h))
   | ["desc", h] => runS (fDescs (bytesOfHex h))
+  | "sec" :: "t" :: pk => runS (opSecTable (pk.map bytesOfHex))
   | "sec" :: k :: pk => runS (opSec (if k == "s" then Psi.rawSection else Psi.rawCompact) (pk.map bytesOfHex))
   | "pesf" :: pk => runS (opPesf (pk.map bytesOfHex))
   | "steady" :: c :: pushes => (match parseCfg c with
